@@ -317,7 +317,9 @@ class Ctx:
                                  f"theorems {thms} of {gp} are not established for the code as it is now", res)
             return res
         os.makedirs(GEN, exist_ok=True)
-        with open(os.path.join(GEN, f".{key}.lock"), "w") as lock:
+        # ONE lock for all generated files: different packages may write the same module (e.g. ArcGen.v is produced by
+        # the arcenum and by the arccons package) and different checks compile the same genprops file
+        with open(os.path.join(GEN, ".gen.lock"), "w") as lock:
             fcntl.flock(lock, fcntl.LOCK_EX)
             for name, text in files.items():
                 with open(os.path.join(GEN, name), "w") as fh:
@@ -365,7 +367,7 @@ class Ctx:
         self.cov.setdefault("generated_models", []).append({"key": key, "files": sorted(files), "theorems": thms})
         if self.tier == "thorough":
             # independent re-check of the genprops library (and of everything it depends on, generated files included)
-            with open(os.path.join(GEN, f".{key}.lock"), "w") as lock:
+            with open(os.path.join(GEN, ".gen.lock"), "w") as lock:
                 fcntl.flock(lock, fcntl.LOCK_EX)
                 rc, out = sh(["coqchk", "-silent", "-o"] + flags + [f"VQGP.{genprops}"], 1800, cwd=COQ)
             self.cov.setdefault("coqchk_generated", []).append({"lib": f"VQGP.{genprops}", "ok": rc == 0, "tail": out[-600:]})
